@@ -1,11 +1,14 @@
 (** C06 Huffman container.
     Proved here: the code lengths are those of an optimal prefix code for the merged statistics
     (for every count profile), a lone symbol gets one bit, raw mode round-trips.
-    NOT proved (partial): the bit-level round trip of the u64 encoder register, the trailing-byte
-    peel, the bit iterator and the u16 table-walking decoder at every alignment; that part of the
-    property is decided by the correspondence (the executable model below agrees with the crate on
+    the bit iterator yields exactly the bits of any range at every alignment, and push_symbols
+    (u64 encoder register, peel and re-emit of the trailing partial byte) appends exactly the code
+    words at every alignment.
+    NOT proved (partial): that the nested 256-entry decode tables built by insert_decode and the
+    u16 table-walking decoder map a concatenation of code words back to the symbols; that link of
+    the round trip is decided by the correspondence (the executable model agrees with the crate on
     bit ranges and decoded symbols exactly) and by the implementation-side oracle. *)
-From FC Require Import Base.Res Region.Region Huffman.Huffman Huffman.HuffOpt Huffman.HuffTree Huffman.Bits Huffman.BitIter.
+From FC Require Import Base.Res Region.Region Huffman.Huffman Huffman.HuffOpt Huffman.HuffTree Huffman.Bits Huffman.BitIter Huffman.EncoderOk.
 From Coq Require Import ZArith Permutation Sorted.
 
 (** The greedy (Huffman) cost on the sorted weights is a lower bound for EVERY pairing of the
@@ -52,6 +55,19 @@ Theorem C06_bit_iterator_exact : forall bytes fuel lo hi,
     concat (map chunk_bits cs) = firstn (hi - lo) (skipn lo (bitstr bytes)) /\
     Forall (fun c : N * nat => 1 <= snd c <= 8 /\ (fst c < 2 ^ N.of_nat (snd c))%N) cs.
 Proof. exact bit_chunks_spec. Qed.
+
+(** The encoder side is exact at EVERY alignment: whatever partial byte the previous item left
+    (the container holds [bits] valid bits in ceil(bits/8) bytes), pushing symbols that the code
+    table covers (code lengths 1..57, values fitting their length) extends the valid bit string by
+    EXACTLY the concatenation of their code words -- earlier bits are untouched (append-only, C02) --
+    keeps the state well formed, and returns the bit range (old length, new length): an item
+    occupies the sum of its symbols' code lengths. *)
+Theorem C06_push_symbols_exact : forall h bytes bits syms, wfst bytes bits -> covered (enc h) syms ->
+  exists bytes' bits', push_symbols h bytes bits syms = Ok (bytes', bits', (bits, bits')) /\
+    wfst bytes' bits' /\
+    vb bytes' bits' = vb bytes bits ++ concat (map (cw (enc h)) syms) /\
+    bits' = bits + list_sum (map (clen (enc h)) syms).
+Proof. exact push_symbols_spec. Qed.
 
 (** raw mode (before any merge and after clear) stores the symbols themselves *)
 Theorem C06_raw_roundtrip : forall raw stats v,
